@@ -427,7 +427,9 @@ def run(ctx):
                          'modelled separately (Model/ParStatus.lean, capacity as a parameter) and exercised by the large and interactive runs',
                          'guarded hook in skyllh/core/multiproc.py (_verif_point): add-only, inactive without ICECUBE_SKYLLH_VERIF=1']
     ctx.assumptions += ['start method fork (the worker is a closure); faults inside the master process itself are not part of the model',
-                        'a child that exits normally has flushed its queues (multiprocessing joins the feeder threads at exit)']
+                        'a child that exits normally has flushed its queues (multiprocessing joins the feeder threads at exit)',
+                        'a child that dies after it has delivered its result and its log sentinel (exit code ignored at join) is not a failure: the call returns the complete result',
+                        'no child dies in the middle of a pipe write (NoPartial) for the termination / fails-loudly theorems; the code violates the property there (open finding, c09_partial_write_hang_counterexample)']
 
     # ---- chunking: model vs numpy on the object array the code builds
     nmax, cmax = ctx.n(24, 60), ctx.n(9, 16)
@@ -548,6 +550,11 @@ def run(ctx):
     for ncpu in range(2, NC + 1):
         groups.append([make_case(ncpu, NT, late_sentinel=ls, seed=17, variant='late-sentinel')
                        for ls in ([1], list(range(1, ncpu)), [ncpu - 1])])
+    # after an error no child may be left behind: a sibling that would run for 3 s more has to be gone 1 s after the raise
+    for fault in ({'pid': 1, 'point': 'task', 't': 0, 'kind': 'raise'}, {'pid': 1, 'point': 'queued', 'kind': 'exit', 'code': 3, 'flushed': True}):
+        c = make_case(3, 6, fault=fault, variant='orphan-check')
+        c['plan'].append(entry('task', 2, 0, ('sleep', 3.0)))
+        groups.append([c])
     # do_trials without trials; worker counts that are none
     for ncpu in (1, 2):
         groups.append([make_case(ncpu, 0, seed=3, api='do_trials', variant='do_trials-n0')])
@@ -670,8 +677,11 @@ MANIFEST = dict(
           'assignments and all fault triples of the quantifier: the observed outcome class must be in the model outcome set. '
           'Further oracles: repeated calls on the same args_list object with a fresh rss of the same seed return what a call on a '
           'newly built list returns; large fault-free runs (20000+ tasks) and interactive-session runs end inside the watchdog; '
-          'status-queue model: batch mode never blocks on it, with the queue emptied at join the worker always exits.'),
-    note=('Real scheduling, queue feeder threads, OS timing and "bounded time" are outside the theorems (watchdog observation); '
+          'status-queue model: batch mode never blocks on it, with the queue emptied at join the worker always exits. '
+          'Bounded work: at most pot(init) state-changing steps in any run. Further oracles: results larger than the pipe buffer, two faults, '
+          'fault x interactive / do_trials, no child process left after return or raise, no accidental exception classes.'),
+    note=('OPEN: a child dying in the middle of writing a result larger than the pipe buffer blocks the master in recv (counterexample theorem + known finding); '
+          'Real scheduling, queue feeder threads, OS timing and "bounded time" are outside the theorems (watchdog observation); '
           'faults inside the master process are not modelled; the gather loop of the pinned commit is kept as Orig with machine-checked '
           'hang counterexamples.'),
     design='DESIGN.md section 4 C09',
